@@ -228,7 +228,9 @@ unexpected_cfgs = { level = "allow", check-cfg = ['cfg(kani)'] }
         mods = "\n".join("pub mod %s;" % p.name for p in self.progs if p.name not in self.excluded)
         disp = "\n".join('        "%s" => %s::replay(h, b),' % (p.name, p.name) for p in self.progs if p.name not in self.excluded)
         open(os.path.join(self.dir, "src", "lib.rs"), "w").write(
-            "#![allow(unused)]\npub mod support;\n%s\npub fn replay(p: &str, h: &str, b: &[u8]) -> (bool, String) {\n    match p {\n%s\n        _ => (true, String::from(\"unknown program\")),\n    }\n}\n" % (mods, disp))
+            # strict crates: no crate-wide `allow(unused)` (it would silence unused_parens / unused_braces / unused_variables .. in the program
+            # modules as well - their `#![deny(warnings)]` only raises lints that are at warn level); the allow sits on the support module only
+            "%spub mod support;\n%s\npub fn replay(p: &str, h: &str, b: &[u8]) -> (bool, String) {\n    match p {\n%s\n        _ => (true, String::from(\"unknown program\")),\n    }\n}\n" % ("#[allow(unused)]\n" if self.strict else "#![allow(unused)]\n", mods, disp))
         open(os.path.join(self.dir, "src", "bin", "replay.rs"), "w").write(REPLAY_MAIN)
         nc = "\n".join('    for m in ecrate::%s::ncheck() { println!("%s\\t{}", m.replace("\\n", " ")); }' % (p.name, p.name) for p in self.progs if p.ncheck and p.name not in self.excluded)
         open(os.path.join(self.dir, "src", "bin", "ncheck.rs"), "w").write("fn main() {\n%s\n    println!(\"NCHECK-DONE\");\n}\n" % nc)
